@@ -273,6 +273,14 @@ pub struct DN {
 }
 show_struct2!(DN, gens, w, id);
 
+/// (w_derive) exactly one field, and it carries a token: `token_count > 0` means `token_count == 1` here
+#[derive(JominiDeserialize)]
+pub struct D1T {
+    #[jomini(token = 0x2e10)]
+    only: u32,
+}
+show_struct2!(D1T, only);
+
 fn fin<T: Show>(r: Result<T, jomini::Error>) -> String {
     match r {
         Ok(v) => {
@@ -318,6 +326,7 @@ instances! {
     "DGT_i32" => DGT<i32>,
     "DL" => DL,
     "DN" => DN,
+    "D1T" => D1T,
 }
 
 pub fn dispatch(kind: &str, a: &[&str]) -> Option<String> {
